@@ -77,6 +77,9 @@ pub enum COp {
     Get { h: u16 },
     /// drop the live guard selected by `k`
     DropGuard { k: u16 },
+    /// the same, but the guard is dropped by a panic that unwinds through its owner (and is
+    /// contained): the slot is released and the parked task woken all the same
+    DropGuardUnwinding { k: u16 },
     /// query `available` through handle `h` with waker `w` (0 or 1)
     Avail { h: u16, w: u8 },
     /// clone handle `h`
@@ -139,16 +142,25 @@ fn check_counter_inner(c: &CounterCase) -> CaseResult {
                 guards.push(vcore::Sut::new(handles[i].get()));
                 live += 1;
             }
-            COp::DropGuard { k } => {
+            COp::DropGuard { k } | COp::DropGuardUnwinding { k } => {
                 if guards.is_empty() {
                     continue;
                 }
                 let i = vcore::pick(k, guards.len());
+                let unwinding = matches!(op, COp::DropGuardUnwinding { .. });
                 // the wake-up belongs to the very drop that brings the count below the capacity
                 // (an earlier one would find the counter still full)
                 let before = waiting.map(|(w, _)| wake_count(w));
                 re.seen.store(0, Ordering::SeqCst);
-                drop(guards.remove(i));
+                if unwinding {
+                    let g = guards.remove(i).into_inner();
+                    let _ = catch_unwind(AssertUnwindSafe(move || {
+                        let _owned = g;
+                        std::panic::resume_unwind(Box::new("verif: the guard's owner unwinds"));
+                    }));
+                } else {
+                    drop(guards.remove(i));
+                }
                 let crossing = live == cap; // live goes cap -> cap-1: count is now below the capacity
                 live -= 1;
                 if reached_cap {
@@ -345,6 +357,7 @@ fn cop() -> impl Strategy<Value = COp> {
     prop_oneof![
         4 => any::<u16>().prop_map(|h| COp::Get { h }),
         4 => any::<u16>().prop_map(|k| COp::DropGuard { k }),
+        1 => any::<u16>().prop_map(|k| COp::DropGuardUnwinding { k }),
         4 => (any::<u16>(), 0u8..3).prop_map(|(h, w)| COp::Avail { h, w }),
         1 => any::<u16>().prop_map(|h| COp::CloneHandle { h }),
         1 => any::<u16>().prop_map(|h| COp::DropHandle { h }),
